@@ -51,11 +51,13 @@ def gen_attr_case(rng, i):
             else:
                 cols[k] = [int(rng.integers(-3, 4)) for _ in cols[k]]
     given = names if rng.random() < .85 or mal else None
+    # an explicit storage allocation (any number >= the rows passed in) never changes what is built (D41)
+    alloc = len(expos) + int(rng.integers(0, 2 * len(expos) + 3)) if rng.random() < .3 else None
     if given is None:
         width = len(expos[0])
         s_names = list(range(width))
     return {"id": i, "kind": "attrs", "names": given, "expos": expos, "cols": cols, "shape": list(shape), "dtype": s["dtype"],
-            "rc": bool(rng.integers(2)), "rn": bool(rng.integers(2)), "mal": mal, "col_dtypes": col_dtypes}
+            "rc": bool(rng.integers(2)), "rn": bool(rng.integers(2)), "mal": mal, "col_dtypes": col_dtypes, "allocation": alloc}
 
 
 def attr_driver(c):
@@ -68,6 +70,9 @@ def check_attrs(ctx, c, model):
     dtype = numpy.dtype(c["dtype"])
     dts = [numpy.dtype(d) for d in c["col_dtypes"]] if c.get("col_dtypes") else [dtype] * len(c["cols"])
     cols = [numpy.array([exact_to_py(coef_from_json(v), dt) for v in col], dtype=dt).reshape(tuple(c["shape"])) for col, dt in zip(c["cols"], dts)]
+    if c.get("allocation") is not None:
+        tags = tags + ["allocation"]
+        ctx.count("attrs.allocation")
     if c.get("col_dtypes"):
         tags = tags + ["mixed-dtypes"]
         ctx.count("attrs.mixed-dtypes")
@@ -76,7 +81,8 @@ def check_attrs(ctx, c, model):
     ctx.count(f"attrs.malformed={c['mal']}")
     try:
         p = numpoly.polynomial_from_attributes(numpy.array(c["expos"], dtype=int).reshape(len(c["expos"]), -1), cols, names,
-                                               retain_coefficients=c["rc"], retain_names=c["rn"])
+                                               retain_coefficients=c["rc"], retain_names=c["rn"],
+                                               **({"allocation": c["allocation"]} if c.get("allocation") is not None else {}))
     except numpoly.construct.clean.PolynomialConstructionError:
         if model.get("status") != "err":
             ctx.fail(c, "PolynomialConstructionError for a valid attribute triple", tags + ["raises:construction"])
@@ -89,12 +95,13 @@ def check_attrs(ctx, c, model):
     if model.get("status") == "err":
         ctx.fail(c, f"malformed attributes ({c['mal']}) were accepted", tags + ["accepted"])
         return
+    if wf_problems(p):
+        ctx.fail(c, f"result not well-formed: {wf_problems(p)}", tags + ["wf"])
+        return
     s = poly_to_struct(p)
     inp = {"names": c["names"] if c["names"] is not None else list(range(len(c["expos"][0]))), "shape": c["shape"],
            "terms": [[e, col] for e, col in zip(c["expos"], c["cols"])]}
-    if wf_problems(p):
-        ctx.fail(c, f"result not well-formed: {wf_problems(p)}", tags + ["wf"])
-    elif den_of_struct(s) != den_of_struct(inp) or s["shape"] != c["shape"]:
+    if den_of_struct(s) != den_of_struct(inp) or s["shape"] != c["shape"]:
         ctx.fail(c, f"constructor changed the polynomial: {den_key(den_of_struct(s))[:150]} vs {den_key(den_of_struct(inp))[:150]}", tags + ["value"])
     elif (s["names"], sorted(map(tuple, (t[0] for t in s["terms"])))) != (model["names"], sorted(map(tuple, (t[0] for t in model["terms"])))):
         ctx.fail(c, f"kept names/rows {s['names']} {[t[0] for t in s['terms']]} but exactly {model['names']} {[t[0] for t in model['terms']]} should be kept (retain_coefficients={c['rc']}, retain_names={c['rn']})", tags + ["cleaning"])
@@ -180,6 +187,74 @@ def run_mixed_numbers(ctx):
                     ctx.fail(case, f"{label}({x!r}, {y!r}) denotes {den_key(got)[:150]}, the attributes say {den_key(want)[:150]}", ["mixed-numbers", "value"])
 
 
+def run_odd_keys(ctx):
+    """terms whose storage key is a character that string predicates treat specially (digits such as the superscripts,
+    whitespace, control characters, separators): they are terms like any other (seeded change C03-8: keys for which
+    str.isdigit() holds were skipped by `exponents` / `coefficients`)"""
+    odd = gen.odd_exponents()
+    for k, e in enumerate(odd):
+        e2 = odd[(k + 7) % len(odd)]
+        for label, names, terms in (("q0**e", [0], [[[e], [2]]]),
+                                    ("2*q0**e+1", [0], [[[0], [1]], [[e], [2]]]),
+                                    ("q0**e*q1**e2 + q1", [0, 1], [[[e, e2], [3]], [[0, 1], [1]]]),
+                                    ("[q0**e, q0**e2]", [0], [[[e], [1, 0]], [[e2], [0, 1]]])):
+            shape = [len(terms[0][1])] if len(terms[0][1]) > 1 else []
+            s = {"names": names, "shape": shape, "dtype": "int64", "kind": "int", "terms": terms}
+            case = {"kind": "odd-keys", "a": s, "exponent": e, "key": repr(chr(e + 59))}
+            ctx.evaluations += 1
+            ctx.count("odd-keys")
+            try:
+                p = struct_to_poly(s, dtype="int64")
+                probs = wf_problems(p)
+                if not probs and den_of_struct(poly_to_struct(p)) != den_of_struct(s):
+                    probs = [f"attributes read back as {den_key(den_of_struct(poly_to_struct(p)))[:100]}"]
+                if not probs and len(numpy.asarray(p.exponents)) != len(p.values.dtype.names):
+                    probs = ["fewer exponent rows than stored fields"]
+                probs = probs or regenerate_problems(p)
+                # arithmetic goes through the attributes as well
+                if not probs:
+                    doubled = p + p
+                    want = {m: tuple(2 * c for c in cs) for m, cs in den_of_struct(s).items()}
+                    if den_of_struct(poly_to_struct(doubled)) != want:
+                        probs = [f"p + p reads {den_key(den_of_struct(poly_to_struct(doubled)))[:100]}"]
+            except Exception as err:  # noqa: BLE001
+                probs = [f"raised {type(err).__name__}: {str(err)[:100]}"]
+            if probs:
+                ctx.fail(case, f"{label} with e={e} (storage key {chr(e + 59)!r}): {probs}", ["odd-keys", "wf"])
+
+
+def run_allocations(ctx):
+    """every public constructor that takes `allocation`, for every allocation from the number of terms to three times it"""
+    makers = [("variable(3)", 3, lambda a: numpoly.variable(3, allocation=a)),
+              ("monomial(4)", 4, lambda a: numpoly.monomial(4, allocation=a)),
+              ("symbols('q0 q1')", 2, lambda a: numpoly.symbols("q0 q1", allocation=a)),
+              ("polynomial(dict)", 3, lambda a: numpoly.polynomial({(0, 0): 1, (1, 0): [2, 3], (0, 2): 4}, allocation=a)),
+              ("polynomial(list)", 3, lambda a: numpoly.polynomial([numpoly.variable(2)[0] + 1, numpoly.variable(2)[1] ** 2], allocation=a)),
+              ("ndpoly", 3, lambda a: numpoly.ndpoly([[0], [1], [2]], shape=(2,), allocation=a))]
+    for label, k, make in makers:
+        ref = None
+        for a in [None] + list(range(k, 3 * k + 1)):
+            case = {"kind": "allocation", "maker": label, "allocation": a}
+            ctx.evaluations += 1
+            ctx.count("allocation")
+            try:
+                p = make(a)
+                if label == "ndpoly":
+                    for key in p.keys:
+                        p.values[key] = 1
+                probs = wf_problems(p) + regenerate_problems(p)
+                den = den_of_struct(poly_to_struct(p))
+            except Exception as err:  # noqa: BLE001
+                ctx.fail(case, f"{label} with allocation={a} raised {type(err).__name__}: {str(err)[:100]}", ["allocation", "raises"])
+                continue
+            if probs:
+                ctx.fail(case, f"{label} with allocation={a}: {probs}", ["allocation", "wf"])
+            elif ref is None:
+                ref = den
+            elif den != ref:
+                ctx.fail(case, f"{label} with allocation={a} denotes another polynomial than without", ["allocation", "value"])
+
+
 def run_catalogue(ctx):
     rng = ctx.rng("catalogue")
     reps = 12 if ctx.quick else 150
@@ -228,6 +303,8 @@ def run(ctx):
     run_catalogue(ctx)
     run_dtypes(ctx)
     run_mixed_numbers(ctx)
+    run_allocations(ctx)
+    run_odd_keys(ctx)
 
 
 def replay(ctx, case):
@@ -235,6 +312,16 @@ def replay(ctx, case):
     if case["kind"] == "dtype-regenerate":
         rp = regenerate_problems(struct_to_poly(case["a"], dtype=case["a"]["dtype"]))
         return str(rp) if rp else None
+    if case["kind"] == "odd-keys":
+        run_odd_keys(ctx)
+        hits = [f for f in ctx.failures[n:] if f["case"].get("exponent") == case["exponent"]]
+        return hits[0]["what"] if hits else None
+    if case["kind"] == "allocation":
+        run_allocations(ctx)
+        return ctx.failures[n]["what"] if len(ctx.failures) > n else None
+    if case["kind"] == "mixed-numbers":
+        run_mixed_numbers(ctx)
+        return ctx.failures[n]["what"] if len(ctx.failures) > n else None
     if case["kind"] == "attrs":
         check_attrs(ctx, case, run_driver([attr_driver(case)])[0])
     else:
